@@ -383,7 +383,8 @@ W_FILES = lambda: [xl(xb(b"public/secret.private"), xb(b"SECRET:secret.private:0
                    xl(xb(b"public/a.txt"), xb(b"!> allow-ips 10.0.0.1\nSECRET:a.txt:000004; listed only")),
                    xl(xb(b"public/h.txt"), xb(b"!> hide\nSECRET:h.txt:000005; nobody")),
                    xl(xb(b"public/p.txt"), xb(b"PUBLIC:p.txt:000006; everybody")),
-                   xl(xb(b"public/v6.txt"), xb(b"!> allow-ips ::ffff:10.0.0.1 2001:db8::1\nSECRET:v6.txt:000007; two IPv6 clients"))]
+                   xl(xb(b"public/v6.txt"), xb(b"!> allow-ips ::ffff:10.0.0.1 2001:db8::1\nSECRET:v6.txt:000007; two IPv6 clients")),
+                   xl(xb(b"public/dl.txt"), xb(b"!> allow-ips 10.0.0.1 &> download &> unknown-ext &> cache server:full\nSECRET:dl.txt:000013; listed only"))]
 
 
 def witnesses(rng):
@@ -398,6 +399,9 @@ def witnesses(rng):
     cases += mk(rng, files, [greq(b"/ca.txt", addr=1), greq(b"/ca.txt", addr=2), greq(b"/a.txt", addr=1), greq(b"/a.txt", addr=2),
                              greq(b"/a%2Etxt", addr=1), greq(b"/a%2Etxt", addr=11), greq(b"/h.txt", addr=1), greq(b"/h%2etxt", addr=1),
                              greq(b"/p.txt", addr=9), greq(b"/p.txt", addr=9)], "corpus/basics")
+    # directives between allow-ips and a later cache directive must not lose the lock on the server cache preference
+    cases += mk(rng, files, [greq(b"/dl.txt", addr=1), greq(b"/dl.txt", addr=2), greq(b"/dl.txt", addr=V6("::ffff:10.0.0.1")), greq(b"/dl.txt", addr=1)],
+                "corpus/allow-download-cache")
     vary = [pipe.vary_rule(b"/ac.txt", [(b"x-v", 0, b"-")]), pipe.vary_rule(b"/h.txt", [(b"x-v", 0, b"-")])]
     cases += mk(rng, files, [greq(b"/ac.txt", addr=2, headers=[(b"x-v", b"a")]), greq(b"/ac.txt", addr=1, headers=[(b"x-v", b"b")]),
                              greq(b"/ac.txt", addr=2, headers=[(b"x-v", b"b")]), greq(b"/h.txt", headers=[(b"x-v", b"a")]),
@@ -595,6 +599,41 @@ def spec_ok(c, impl, spec):
             if b"/".join(segs) != name:
                 return False
     return True
+
+
+def _canon_reply_headers(text):
+    """what the correspondence compares of the headers: the property fixes neither the text of cache-control (only that the header is there
+    or not is compared) nor whether a 404 goes through the cache (last-modified presence is compared on the other statuses); the
+    refused-vs-absent twins (real against real) compare the exact headers."""
+    try:
+        v = xparse(text)
+    except Exception:
+        return text
+    if v[0] != "L":
+        return text
+    out = []
+    for rp in v[1]:
+        if rp[0] == "L" and len(rp[1]) == 6 and rp[1][1][0] == "L":
+            status = rp[1][0][1]
+            hs = []
+            for h in rp[1][1][1]:
+                name = h[1][0][1]
+                if name == b"cache-control":
+                    hs.append(xl(xb(name), xb(b"")))
+                elif name == b"last-modified":
+                    if status != 404:
+                        hs.append(h)
+                else:
+                    hs.append(h)
+            rp = xl(rp[1][0], xlist(hs), *rp[1][2:])
+        out.append(rp)
+    return xtext(xlist(out))
+
+
+def compare(c, i, m):
+    if c.comp == "guards.wire" or i == m:
+        return i == m
+    return _canon_reply_headers(i) == _canon_reply_headers(m)
 
 
 def _py_guard(rel, data):
